@@ -206,14 +206,18 @@ package panos
 // Netspoc group).
 //vc:spec macro freeOnDevice(n string, m map[string]*panAddressGroup) bool = !(n in m) || m[n] == nil
 //vc:func (*rulesPair).genUniqGroupNames
-//vc:  invariant[C03] 1 "for _, g := range ab.b.vsys.AddressGroups" @noClashSoFar -1 <= rangeindex && (forall k int :: { ab.b.vsys.AddressGroups[k] } 0 <= k && k <= rangeindex ==> freeOnDevice(ab.b.vsys.AddressGroups[k].Name, aGroups))
-//vc:  invariant[C03] 2 "for i := 1; ; i++" @namesUntouchedWhileSearching forall q *panAddressGroup :: { q.Name } q.Name == loopold(q.Name)
+//vc:  invariant[C03] 1 "for _, g := range ab.b.vsys.AddressGroups" true
+//vc:  invariant[C03] 2 "for _, g := range ab.b.vsys.AddressGroups" @noClashSoFar -1 <= rangeindex && (forall k int :: { ab.b.vsys.AddressGroups[k] } 0 <= k && k <= rangeindex ==> freeOnDevice(ab.b.vsys.AddressGroups[k].Name, aGroups))
+//vc:  invariant[C03] 3 "for i := 1; ; i++" @namesUntouchedWhileSearching forall q *panAddressGroup :: { q.Name } q.Name == loopold(q.Name)
+//vc:  assert[C03] at "g.Name = new" @newNameNotATargetName !((new in bNames) && bNames[new])
 //vc:  ensures[C03] @netspocGroupNamesFree forall k int :: { ab.b.vsys.AddressGroups[k] } 0 <= k && k < len(ab.b.vsys.AddressGroups) ==> freeOnDevice(ab.b.vsys.AddressGroups[k].Name, ab.a.groups)
 // same for rules: a new rule is written with `set` under its own name and would merge into a device rule of that name
 //vc:func (*rulesPair).genUniqRuleNames
 //vc:  invariant[C03] 1 "for _, ru := range ab.a.rules" @deviceNamesCollected -1 <= rangeindex && (forall j int :: { ab.a.rules[j] } 0 <= j && j <= rangeindex ==> (ab.a.rules[j].Name in aNames) && aNames[ab.a.rules[j].Name])
-//vc:  invariant[C03] 2 "for _, ru := range ab.b.rules" @noRuleClashSoFar -1 <= rangeindex && (forall k int :: { ab.b.rules[k] } 0 <= k && k <= rangeindex ==> !((ab.b.rules[k].Name in aNames) && aNames[ab.b.rules[k].Name]))
-//vc:  invariant[C03] 3 "for i := 1; ; i++" @ruleNamesUntouchedWhileSearching forall q *panRule :: { q.Name } q.Name == loopold(q.Name)
+//vc:  invariant[C03] 2 "for _, ru := range ab.b.rules" @deviceNamesStillCollected forall j int :: { ab.a.rules[j] } 0 <= j && j < len(ab.a.rules) ==> (old(ab.a.rules[j].Name) in aNames) && aNames[old(ab.a.rules[j].Name)]
+//vc:  invariant[C03] 3 "for _, ru := range ab.b.rules" @noRuleClashSoFar -1 <= rangeindex && (forall j int :: { ab.a.rules[j] } 0 <= j && j < len(ab.a.rules) ==> (old(ab.a.rules[j].Name) in aNames) && aNames[old(ab.a.rules[j].Name)]) && (forall k int :: { ab.b.rules[k] } 0 <= k && k <= rangeindex ==> !((ab.b.rules[k].Name in aNames) && aNames[ab.b.rules[k].Name]))
+//vc:  invariant[C03] 4 "for i := 1; ; i++" @ruleNamesUntouchedWhileSearching (forall q *panRule :: { q.Name } q.Name == loopold(q.Name)) && (forall n string :: { aNames[n] } ((n in aNames) && aNames[n]) == loopold((n in aNames) && aNames[n]))
+//vc:  assert[C03] at "ru.Name = new" @newNameNotATargetName !((new in bNames) && bNames[new])
 //vc:  ensures[C03] @deviceRuleNamesKnown forall j int :: { ab.a.rules[j] } 0 <= j && j < len(ab.a.rules) ==> (old(ab.a.rules[j].Name) in aNames) && aNames[old(ab.a.rules[j].Name)]
 //vc:  ensures[C03] @netspocRuleNamesFree forall k int :: { ab.b.rules[k] } 0 <= k && k < len(ab.b.rules) ==> !((ab.b.rules[k].Name in aNames) && aNames[ab.b.rules[k].Name])
 
@@ -224,3 +228,12 @@ package panos
 //vc:func (*PanConfig).getDevName
 //vc:  requires[C09,C20] @hasDeviceEntry c.Devices != nil && len(c.Devices.Entries) > 0
 //vc:  ensures result == c.Devices.Entries[0].Hostname
+
+// adaptGroups: a Netspoc group that is going to be transferred under its own
+// name is bound to that name at once, so that a later rule cannot link it to a
+// device group and cancel the transfer while this rule already uses the name.
+//vc:func (*rulesPair).adaptGroups
+//vc:  assert[C03] after "gb.nameOnDevice = gb.Name" @transferredGroupKeepsItsName lb[i] == gb.Name && gb.nameOnDevice == gb.Name
+// diffRules: the rule name in `where=before&dst=` goes into a URL like every other name (structural guard)
+//vc:func (*rulesPair).diffRules
+//vc:  assert[C03] at "url.QueryEscape(aName)" @moveDestinationEscaped true
